@@ -9,7 +9,7 @@ from .values import *
 BUILTINS = {"len", "int", "float", "range", "min", "max", "abs", "round", "sum", "zip", "enumerate",
             "isinstance", "dict", "list", "tuple", "str", "bool", "complex", "sorted", "set", "getattr",
             "callable", "print", "all", "any", "super", "type", "hasattr", "ValueError", "TypeError",
-            "RuntimeError", "KeyError", "AttributeError", "NotImplementedError", "Exception", "reversed", "map", "slice", "IndexError", "ZeroDivisionError", "dir", "vars", "id"}
+            "RuntimeError", "KeyError", "AttributeError", "NotImplementedError", "Exception", "reversed", "map", "slice", "IndexError", "ZeroDivisionError", "dir", "vars", "id", "globals"}
 
 KIND.setdefault("pi", "pos")
 KIND.setdefault("inf", "pos")
@@ -715,6 +715,16 @@ def store_subscript(interp, o, t, v, st, aug):
         A_ = local_to_arr(o) if (o.stores or o.fill is not None) else None
         if (A_ is None or is_opaque(A_)) and o.stores: A_ = local_to_arr(o, st)
         M_ = idx[0]
+        if M_.ndim == 1 and len(o.shape) == 1 and isinstance(M_.body, X) and M_.body.eq(X.var(M_.axes[0][0])) and M_.axes[0][1].eq(o.shape[0]) and not aug:
+            # a[idx] = v with idx = 0, 1, ..., n-1 (the identity permutation): every element is stored, element i from v[i]
+            V_ = local_to_arr(v, st) if isinstance(v, LocalArr) else (as_arr(v) if isinstance(v, (Arr, ArrParam)) else None)
+            (mv, mc), = M_.axes
+            if V_ is not None and not is_opaque(V_) and V_.ndim == 1 and V_.axes[0][1].eq(mc): val_ = subst_val(V_.body, {V_.axes[0][0]: X.var(mv)})
+            elif V_ is None and to_x(v) is not None: val_ = v
+            else: val_ = Opaque("fancy store of an unrecognised value")
+            ext = tuple(("under", e_[0], e_[1]) for e_ in getattr(st, "under", []) if len(e_) < 3 or e_[2] is None or o.ident in e_[2])
+            o.stores.append((((mv, mc),), (X.var(mv),), val_) + ext)
+            return
         if A_ is not None and not is_opaque(A_) and A_.ndim == 1 and M_.ndim == 1 and not isinstance(v, (Arr, ArrParam, Masked, LocalArr)) and not aug:
             # in place: the array object itself (which callers and other names may share) receives  a[i] = v where mask[i] else a[i]
             (av, ac), = A_.axes; (mv, mc), = M_.axes
@@ -829,6 +839,25 @@ def store_subscript(interp, o, t, v, st, aug):
 
 # ---------------------------------------------------------------------------- comprehensions
 def list_comp(interp, n, st):
+    if len(n.generators) == 2 and not n.generators[0].ifs:
+        # [elt for a in outer for b in inner(a)] with a concrete outer sequence: concatenation of the inner comprehensions
+        from .absint import _concrete_seq as _cs
+        g0 = n.generators[0]
+        outer = _cs(interp.eval(g0.iter, st))
+        if outer is None: return Opaque("nested comprehension over a symbolic outer sequence")
+        inner = ast.ListComp(elt=n.elt, generators=[n.generators[1]])
+        ast.copy_location(inner, n)
+        parts = []
+        for v in outer:
+            sub = st.clone()
+            interp.assign(g0.target, v, sub)
+            parts.append(list_comp(interp, inner, sub))
+        parts = [p for p in parts if not (isinstance(p, ListVal) and not p.items and not p.per_iter)]
+        if not parts: return ListVal([])
+        if len(parts) == 1: return parts[0]
+        if all(isinstance(p, ListVal) and not p.per_iter for p in parts):
+            return ListVal([e for p in parts for e in p.items])
+        return Opaque("concatenation of several symbolic comprehensions")
     if len(n.generators) != 1: return Opaque("nested comprehension")
     g = n.generators[0]
     it = interp.eval(g.iter, st)
